@@ -20,6 +20,8 @@ ExplicitX(c) == [type |-> "explicitx", coords |-> c]
 ExplicitY(c) == [type |-> "explicity", coords |-> c]
 PolyE(l, t, pts, rep, props) == [l |-> l, t |-> t, pts |-> pts, rep |-> rep, props |-> props]
 El(l, t, w, off, pt, ext) == [l |-> l, t |-> t, w |-> w, off |-> off, pt |-> pt, ext |-> ext]
+RPathE(els, spine, rep, props) == [robust |-> TRUE, simple |-> TRUE, sw |-> TRUE, els |-> els, spine |-> spine,
+                                   rep |-> rep, props |-> props]
 PathE(els, spine, rep, props) == [robust |-> FALSE, simple |-> TRUE, sw |-> TRUE, els |-> els, spine |-> spine,
                                   rep |-> rep, props |-> props]
 LabelE(l, t, an, f, m, a, xy, txt, rep, props) ==
@@ -94,6 +96,10 @@ PathsV(k) ==
         : s \in 0..2, w \in {0, 41, 80}, pt \in {0, 2, 4}, ext \in {<<21, -13>>, <<40, 0>>}}
     \cup {PathE(<<El(3, 1, 80, 0, 0, <<0, 0>>), El(4, 2, 48, 0, 2, <<0, 0>>), El(5, 2, 40, 0, 4, <<20, 7>>)>>,
                 Spines[(k % Len(Spines)) + 1], RepV(k), PR1)}
+    \* simple robust paths (straight sections): their centre lines are written as PATH records too
+    \cup {RPathE(<<El(LayerV(k), 1, w, 0, pt, <<21, -13>>)>>, Spines[((k + s) % Len(Spines)) + 1], RepV(k + s), PropsV(s))
+           : s \in 0..2, w \in {41, 80}, pt \in {0, 2, 4}}
+    \cup {RPathE(<<El(3, 1, 80, 0, 0, <<0, 0>>), El(4, 2, 48, 0, 4, <<8, 4>>)>>, Spines[(k % Len(Spines)) + 1], NoRep, PR1)}
 LabelsV(k) == {LabelE(LayerV(k), 3, 0, FALSE, 1024, 0, <<1, 3>>, <<104, 105>>, RepV(k), PropsV(k)),
                LabelE(11, LayerV(k), 5, TRUE, 2048, 90 * 64, <<-401, 799>>, <<111, 100, 100>>, RepV(k + 1), PR1),
                LabelE(12, 1, 10, FALSE, 512, 61 * 32, <<0, 0>>, <<104, 105>>, NoRep, PR2)}
